@@ -170,6 +170,11 @@ class SCCReader(BaseReader):
     """
 
     def __init__(self, *args, **kw):
+        self._reset_state()
+
+    def _reset_state(self):
+        """(Re)create the decoder state, so that every read() starts clean
+        and a reader object can be used more than once."""
         self.caption_stash = CaptionCreator()
         self.time_translator = _SccTimeTranslator()
 
@@ -232,6 +237,10 @@ class SCCReader(BaseReader):
         """
         if not isinstance(content, str):
             raise InvalidInputError("The content is not a unicode string.")
+
+        # Captions, buffers and cursor position left over from a previous
+        # read() on this object must not leak into this one
+        self._reset_state()
 
         self.simulate_roll_up = simulate_roll_up
         self.time_translator.offset = offset * 1000000
